@@ -50,3 +50,22 @@ Proof.
   destruct Hin as [->|Hin]; [|apply IH; assumption].
   apply spec_if_nil in H1. apply orb_prop in H1. destruct H1 as [H1|H1]; [left; apply String.eqb_eq; exact H1 | right; exact H1].
 Qed.
+
+(* a third party's MsgRemoveSelector changes a selection only for a selector below its reporter's minimum
+   whose reporter is over the cap; every other selection is kept *)
+Lemma remove_selector_only_if sels sel stake mn nsel cap sels' :
+  remove_selector sels sel stake mn nsel cap = Some sels' ->
+  stake < mn /\ cap < nsel /\ (forall e, In e sels -> fst e <> sel -> In e sels') /\ (forall e, In e sels' -> In e sels /\ fst e <> sel).
+Proof.
+  unfold remove_selector. destruct ((stake <? mn) && (cap <? nsel)) eqn:E; [|discriminate]. intros H. injection H as <-.
+  apply andb_prop in E. destruct E as [E1 E2]. apply Z.ltb_lt in E1, E2. split; [exact E1|]. split; [exact E2|]. split.
+  - intros e He Hn. apply filter_In. split; [exact He|]. apply negb_true_iff. apply Z.eqb_neq. exact Hn.
+  - intros e He. apply filter_In in He. destruct He as [H1 H2]. split; [exact H1|]. apply negb_true_iff in H2. apply Z.eqb_neq in H2. exact H2.
+Qed.
+
+Lemma remove_selector_rejected sels sel stake mn nsel cap :
+  mn <= stake \/ nsel <= cap -> remove_selector sels sel stake mn nsel cap = None.
+Proof.
+  intros H. unfold remove_selector. destruct ((stake <? mn) && (cap <? nsel)) eqn:E; [|reflexivity].
+  apply andb_prop in E. destruct E as [E1 E2]. apply Z.ltb_lt in E1, E2. lia.
+Qed.
